@@ -2,10 +2,13 @@
     of 1..255 UTF-16 units is, slot for slot, what the specification demands (ascending ordinals 1..n-1, n|0x40 —
     serialised in descending order —, attribute 0x0F, type 0, cluster 0, the checksum of the short entry, the name
     followed by NUL and 0xFFFF padding to a multiple of 13 units, ceil(len/13) slots) and decodes back to the name;
-    the checksum is the specification's; a stored lead byte is never 0xE5.  Whole-history well-formedness is judged
-    by the independent fsck on the real images. *)
+    the checksum is the specification's; a stored lead byte is never 0xE5.  Short names stay pairwise different:
+    the entry create / makedir / move append to ANY directory carries an alias whose stored 11 bytes show the alias again
+    and differ from every short name already there (C05_short_names_stay_unique), is never '.' or '..' and consists of
+    characters above the space other than the dot (C05_alias_stored).  Whole-history well-formedness is judged by the
+    independent fsck on the real images. *)
 From Coq Require Import ZArith List Bool Sorted.
-From PyFatV Require Import Base.Bytes Base.PyEnv Gen.Pure Model.Codec Model.Dir Proofs.Names Proofs.FatCodec Proofs.DirCodec.
+From PyFatV Require Import Base.Bytes Base.PyEnv Gen.Pure Model.Codec Model.Dir Proofs.Names Proofs.FatCodec Proofs.DirCodec Model.FS Proofs.Alias.
 Import ListNotations.
 Open Scope Z_scope.
 
@@ -55,3 +58,22 @@ Example C05_reader_example :
   scan_slots 10 (ser_dir [ex_entry; set_lfn ex_entry None] ++ repeat 0 32) [] [] = Ok (map canon [ex_entry; set_lfn ex_entry None], [], true)
   /\ length (ser_dir [ex_entry; set_lfn ex_entry None]) = 128%nat.
 Proof. vm_compute. split; reflexivity. Qed.
+
+Theorem C05_alias_stored : forall n es b e,
+  Forall (fun c => 32 <= c) (n_base n) -> Forall (fun c => 32 <= c) (n_ext n) -> lenZ (n_base n) <= 8 -> lenZ (n_ext n) <= 3 ->
+  make_8dot3 n es = Ok (b, e) ->
+  sfn_display (sfn_pack b e) = join_ext b e /\ ~ In (sfn_display (sfn_pack b e)) (taken_of es) /\
+  sfn_display (sfn_pack b e) <> [46] /\ sfn_display (sfn_pack b e) <> [46;46].
+Proof. exact alias_stored. Qed.
+Print Assumptions C05_alias_stored.
+Theorem C05_short_names_stay_unique : forall s n es sfn lfn attr t,
+  Forall (fun c => 32 <= c) (n_base n) -> Forall (fun c => 32 <= c) (n_ext n) -> lenZ (n_base n) <= 8 -> lenZ (n_ext n) <= 3 ->
+  new_names s n es = Ok (sfn, lfn) -> Z.land Gen.ATTR_VOLUME_ID attr = 0 ->
+  NoDup (taken_of es) -> NoDup (taken_of (es ++ [set_lfn (new_dirent sfn attr t) lfn])).
+Proof. exact created_entry_keeps_short_names_unique. Qed.
+Print Assumptions C05_short_names_stay_unique.
+(* 'readme.txt' beside an entry README.TXT: the alias is README~1.TXT *)
+Example C05_alias_example :
+  make_8dot3 (mkName [] None None [82;69;65;68;77;69] [84;88;84] false)
+             [mkDirent [82;69;65;68;77;69;32;32;84;88;84] 32 0 0 0 0 0 0 0 0 0 0 None] = Ok ([82;69;65;68;77;69;126;49], [84;88;84]).
+Proof. vm_compute. reflexivity. Qed.
